@@ -58,6 +58,7 @@ class Harness:
         self.target_fn = None      # proof_for_contract target
         self.fns = []              # functions exercised (FN: tags)
         self.features = None
+        self.also_features = None  # additionally run (thorough tier) on this cargo feature set
         self.assumes = []          # ASSUME[..] notes attached
         self.form = "harness-contract"
 
@@ -121,6 +122,8 @@ def scan_registry():
                                 h.kind = "bounded"
                         elif c.startswith("FN:"):
                             h.fns += [p.strip() for p in c[3:].split(",") if p.strip()]
+                        elif c.startswith("BOTH-FEATURES:"):
+                            h.also_features = c[len("BOTH-FEATURES:"):].strip()
                         elif c.startswith("FEATURES:"):
                             h.features = c[len("FEATURES:"):].strip()
                     if h.target_fn and h.target_fn not in h.fns:
@@ -151,6 +154,8 @@ def scan_assumptions(files):
     unjustified (exit 2)."""
     found, unjustified = [], []
     for path in sorted(set(files)):
+        if not os.path.exists(path):
+            continue
         lines = open(path).read().split("\n")
         for i, l in enumerate(lines):
             if l.strip().startswith("//"):
@@ -522,6 +527,18 @@ def main(argv):
     groups = {}
     for h in mine:
         groups.setdefault((h.crate, h.features), []).append(h)
+    if tier == "thorough":
+        import copy
+        extra = []
+        for h in mine:
+            if h.also_features:
+                h2 = copy.copy(h)
+                h2.features = h.also_features
+                h2.also_features = None
+                h2.rkey = "%s@%s" % (h.name, h2.features)
+                groups.setdefault((h2.crate, h2.features), []).append(h2)
+                extra.append(h2)
+        mine = mine + extra
     per_harness_timeout = int(os.environ.get("VERIF_HARNESS_TIMEOUT", "300" if tier == "quick" else "1500"))
     for (crate, feats), hs in sorted(groups.items(), key=lambda kv: (kv[0][0], kv[0][1] or "")):
         filters = sorted({h.name for h in hs})
@@ -537,7 +554,7 @@ def main(argv):
         pr = parse_results(data)
         for h in hs:
             if h.name in pr:
-                results[h.name] = pr[h.name]
+                results[getattr(h, "rkey", h.name)] = pr[h.name]
             else:
                 undecided.append("harness %s did not run (not found by Kani: renamed module or cfg?)" % h.name)
 
@@ -550,7 +567,7 @@ def main(argv):
             contract_lines.add((os.path.basename(c["file"]), str(c["line"])))
             all_contracts.append(c)
     for h in mine:
-        r = results.get(h.name)
+        r = results.get(getattr(h, "rkey", h.name))
         if r is None:
             continue
         checks = r["checks"]
@@ -644,7 +661,7 @@ def finish(prop, tier, seed, t0, mine, results, undecided, violations, known_hit
     samples = []
     fns = set()
     for h in mine:
-        r = results.get(h.name)
+        r = results.get(getattr(h, "rkey", h.name))
         if not r:
             continue
         checks = [c for c in r["checks"] if not is_cover(c)]
@@ -652,7 +669,7 @@ def finish(prop, tier, seed, t0, mine, results, undecided, violations, known_hit
         ok = len([c for c in checks if c.get("status") in ("Success", "Unreachable")]) if r.get("verdict") in ("discharged", "known-finding", "violation", "failed") else 0
         if h.expect_panic and r.get("verdict") == "discharged":
             ok = n
-        st = r.get("stats", {})
+        st = r.get("stats") or {}
         s = float(st.get("runtime_decision_procedure_s") or 0) + float(st.get("runtime_symex_s") or 0)
         solver_s += s
         if h.kind == "proof":
@@ -663,7 +680,7 @@ def finish(prop, tier, seed, t0, mine, results, undecided, violations, known_hit
             b_dis += ok
         for f in h.fns:
             fns.add(f)
-        per.append({"harness": h.name, "kind": h.kind, "form": h.form, "functions": h.fns, "bound": h.bound,
+        per.append({"harness": getattr(h, "rkey", h.name), "features": h.features, "kind": h.kind, "form": h.form, "functions": h.fns, "bound": h.bound,
                     "verdict": r.get("verdict"), "checks": n, "by_class": r.get("class"),
                     "covers": len([c for c in r["checks"] if is_cover(c)]),
                     "cbmc_symex_plus_solver_s": round(s, 3), "wall_ms": r.get("duration_ms")})
